@@ -1,1 +1,2 @@
 import HoloGen.Math
+import HoloGen.Proj
